@@ -746,6 +746,23 @@ class Inliner:
 
             visit_ListComp = visit_SetComp = visit_GeneratorExp = visit_DictComp = _unroll
 
+            def visit_Dict(self, n):
+                self.generic_visit(n)
+                if any(k is None and isinstance(v, ast.Dict) and all(k2 is not None for k2 in v.keys) for k, v in zip(n.keys, n.values)):
+                    keys, vals = [], []
+                    for k, v in zip(n.keys, n.values):
+                        if k is None and isinstance(v, ast.Dict) and all(k2 is not None for k2 in v.keys):
+                            keys += v.keys
+                            vals += v.values
+                        else:
+                            keys.append(k)
+                            vals.append(v)
+                    consts = [k.value for k in keys if isinstance(k, ast.Constant)]
+                    if len(consts) == len(set(map(repr, consts))):      # {**{'a': 1}, 'b': 2} == {'a': 1, 'b': 2} when no key repeats
+                        count[0] += 1
+                        n.keys, n.values = keys, vals
+                return n
+
             def visit_Assign(self, n):
                 self.generic_visit(n)
                 v = n.value
@@ -759,6 +776,9 @@ class Inliner:
 
             def visit_BinOp(self, n):
                 self.generic_visit(n)
+                if isinstance(n.op, ast.Add) and isinstance(n.left, ast.Constant) and isinstance(n.right, ast.Constant) and isinstance(n.left.value, str) and isinstance(n.right.value, str):
+                    count[0] += 1
+                    return at(ast.Constant(value=n.left.value + n.right.value), n)       # "*" + ".css"
                 if isinstance(n.op, ast.Mult):
                     for d, k in ((n.left, n.right), (n.right, n.left)):
                         if isinstance(d, ast.Tuple) and isinstance(k, ast.Constant) and isinstance(k.value, int) and not isinstance(k.value, bool) and 1 <= k.value <= 8 \
@@ -785,6 +805,12 @@ class Inliner:
                     if j is not None:
                         count[0] += 1
                         return at(j, n)
+                if isinstance(f, ast.Attribute) and f.attr in ("match", "fullmatch", "search", "split", "findall", "finditer", "sub", "subn") and isinstance(f.value, ast.Call) \
+                        and sc.resolve(f.value.func) == "re.compile" and len(f.value.args) == 1 and not f.value.keywords and not n.keywords \
+                        and isinstance(sc.resolve_name("re"), str) and sc.resolve_name("re") == "re":
+                    # re.compile(P).split(s)  ==  re.split(P, s)   (a precompiled pattern is the module-level function with the pattern first)
+                    count[0] += 1
+                    return at(ast.Call(func=ast.Attribute(value=ast.Name(id="re", ctx=ast.Load()), attr=f.attr, ctx=ast.Load()), args=[f.value.args[0]] + list(n.args), keywords=[]), n)
                 if isinstance(f, ast.Name) and f.id in ("tuple", "list") and len(n.args) == 1 and not n.keywords and isinstance(n.args[0], (ast.Tuple, ast.List)) \
                         and sc.resolve(f) == f"builtins.{f.id}" and not any(isinstance(x, ast.Starred) for x in n.args[0].elts):
                     count[0] += 1
@@ -1235,6 +1261,49 @@ def desugar(fn: ast.AST) -> int:
     return count[0]
 
 
+def inline_explaining_variables(fn: ast.AST) -> int:
+    """`flag = <expr>` immediately followed by the only statement that reads `flag`, an `if` whose test mentions it once:
+    the test is written with the expression itself (nothing can change between the two statements)."""
+    count = [0]
+    all_names = [n for n in ast.walk(fn) if isinstance(n, ast.Name)]
+
+    def uses(name):
+        return sum(1 for n in all_names if n.id == name and isinstance(n.ctx, ast.Load)), sum(1 for n in all_names if n.id == name and isinstance(n.ctx, (ast.Store, ast.Del)))
+
+    def block(stmts):
+        out = []
+        i = 0
+        stmts = list(stmts)
+        while i < len(stmts):
+            st = stmts[i]
+            if not isinstance(st, (ast.FunctionDef, ast.AsyncFunctionDef, ast.ClassDef)):
+                for fld in ("body", "orelse", "finalbody"):
+                    if getattr(st, fld, None):
+                        setattr(st, fld, block(getattr(st, fld)))
+                for h in getattr(st, "handlers", []) or []:
+                    h.body = block(h.body)
+            if isinstance(st, ast.Assign) and len(st.targets) == 1 and isinstance(st.targets[0], ast.Name) and i + 1 < len(stmts) and isinstance(stmts[i + 1], ast.If) \
+                    and isinstance(st.value, (ast.Compare, ast.BoolOp, ast.Call, ast.UnaryOp)) and not isinstance(st.value, ast.NamedExpr):
+                name = st.targets[0].id
+                nxt = stmts[i + 1]
+                in_test = [n for n in ast.walk(nxt.test) if isinstance(n, ast.Name) and n.id == name and isinstance(n.ctx, ast.Load)]
+                loads, stores = uses(name)
+                if len(in_test) == 1 and loads == 1 and stores == 1:
+                    Replace(in_test[0], st.value).visit(nxt)
+                    if nxt.test is in_test[0]:
+                        nxt.test = st.value
+                    count[0] += 1
+                    i += 1
+                    continue        # the assignment is dropped; the if (next iteration) is kept
+            out.append(st)
+            i += 1
+        return out
+    fn.body = block(fn.body)
+    if count[0]:
+        ast.fix_missing_locations(fn)
+    return count[0]
+
+
 def split_assignments(fn: ast.AST) -> int:
     """`a, b = x, y` -> `a = x; b = y` (when no right-hand side reads a left-hand name) and `a = b = v` -> `a = v; b = v`
     (v a constant / conditional of constants): the same stores, one target each."""
@@ -1303,6 +1372,7 @@ def normalize(project) -> List[str]:
     inl.run()
     for fi in project.funcs.values():
         desugar(fi.node)
+        inline_explaining_variables(fi.node)
         lift_conditionals(fi.node)
         split_assignments(fi.node)
         sink_common_append(fi.node)
@@ -1326,6 +1396,35 @@ def normalize(project) -> List[str]:
             for n in ast.walk(st):
                 if isinstance(n, ast.Call) and sc.resolve_call(n) in inl.new_funcs:
                     still_called.add(sc.resolve_call(n))
+    # new functions that nothing of the pinned package calls: additions to the API, outside the surface the properties speak of
+    edges: Dict[str, Set[str]] = {}
+    for fi in project.funcs.values():
+        sc = Scope(project, fi)
+        outs = set()
+        for n in own_walk(fi.node):
+            if isinstance(n, ast.Call):
+                q = sc.resolve_call(n)
+                if q in project.funcs:
+                    outs.add(q)
+                elif q and q + ".__init__" in project.funcs:
+                    outs.add(q + ".__init__")
+            elif isinstance(n, ast.Attribute) and isinstance(n.ctx, ast.Load):
+                q = sc.resolve_member(n)
+                if q in project.funcs:
+                    outs.add(q)        # property access
+        edges[fi.qualname] = outs
+    reach = set(q for q in project.funcs if q in base_funcs)
+    stack = list(reach)
+    while stack:
+        q = stack.pop()
+        for d in edges.get(q, ()):
+            if d not in reach:
+                reach.add(d)
+                stack.append(d)
+    for fi in project.funcs.values():       # nested functions belong to their parent
+        if fi.parent is not None and fi.parent.qualname in reach:
+            reach.add(fi.qualname)
+    project.outside_surface = {q for q in project.funcs if q not in base_funcs and q not in reach}
     inlined = {l.split(" ", 1)[0] for l in inl.log}
     project.transparent = {q for q in inl.new_funcs if q in inlined and q not in still_called and q.rsplit(".", 1)[-1].startswith("_")}
     return inl.log
